@@ -159,7 +159,7 @@ def all_jobs(info):
     for l, c in asr: b += A(l, c)
     mk('uncompressedFile2CompressedFile', ['File_uncompressedFile2CompressedFile'], b, len(asr) + 1, ['File::uncompressedFile2CompressedFile'])
     # ------------------------------------------------------------------ worker loops (loop contracts)
-    def worker(name, transfer, running, eos_expr, eos_label, stream_good):
+    def worker(name, transfer, running, eos_expr, eos_label, stream_good, good_expr, good_pre):
         stub = '''unsigned g_transfers;
 void %s(struct File *self)
 {
@@ -171,10 +171,10 @@ void %s(struct File *self)
 }
 #define LOOP_%s_1 \\
     __CPROVER_assigns(vb_exc, vb_caught, g_transfers, file->%s, __CPROVER_object_whole(file)) \\
-    __CPROVER_loop_invariant(vb_exc == 0 && g_eos_queue == 0 && g_eos_stream == 0)
-''' % (transfer, stream_good, name, running)
-        b = '    File_%s(&f);\n' % name.replace('File_', '')
-        b = '    %s(&f);\n' % name
+    __CPROVER_loop_invariant(vb_exc == 0 && g_eos_queue == 0 && g_eos_stream == 0) \\
+    __CPROVER_loop_invariant(!file->%s || (%s))     /* the worker keeps running only while its input stream is good: it stops in the iteration in which the stream ends */
+''' % (transfer, stream_good, name, running, running, good_expr)
+        b = '    __CPROVER_assume(%s);\n    %s(&f);\n' % (good_pre, name)
         asr = [
             ('C10/File/%s/no-exception-escapes-the-worker' % name.replace('File_', ''), 'vb_exc == 0'),
             ('C10/File/%s/worker-stops-when-it-returns' % name.replace('File_', ''), '1'),
@@ -183,23 +183,27 @@ void %s(struct File *self)
         for l, c in asr: b += A(l, c)
         mk(name.replace('File_', ''), [name], b, len(asr) + 1, ['File::' + name.replace('File_', '')], loop=True, extra_pre=stub,
            labels={'re:loop invariant before entry': 'C10/File/%s/loop-invariant-on-entry' % name.replace('File_', ''),
-                   're:loop invariant is preserved': 'C10/File/%s/loop-invariant-preserved' % name.replace('File_', '')},
+                   're:loop invariant is preserved': 'C10/File/%s/loop-invariant-preserved-(no-exception-pending-and-the-worker-stops-when-its-input-ends)' % name.replace('File_', '')},
            expect=[r'loop invariant is preserved'])
     worker('File_uncompressedFileReadThread', 'File_uncompressedFile2ReadWriteQueue', 'm_uncompressedFileThreadRunning',
            'g_eos_queue == 1 && g_eos_queue_arg == Q.m_tellp',
            'C06/File/uncompressedFileReadThread/end-of-stream-is-declared-to-the-application-on-every-exit-(also-after-an-unexpected-exception)',
-           'if (vb_nondet_int()) self->m_uncompressedFile.m_rdstate = IOS_eofbit | IOS_failbit;')
+           'if (vb_nondet_int()) self->m_uncompressedFile.m_rdstate = IOS_eofbit | IOS_failbit;',
+           'file->m_uncompressedFile.m_rdstate == 0', 'U.m_rdstate == 0')
     worker('File_uncompressedFileWriteThread', 'File_readWriteQueue2UncompressedFile', 'm_uncompressedFileThreadRunning',
            'g_eos_stream == 1 && g_eos_stream_arg == UncompressedFile_tellp(&U)',
            'C06/File/uncompressedFileWriteThread/end-of-stream-is-declared-to-the-compression-stage-on-every-exit',
-           'if (vb_nondet_int()) self->m_readWriteQueue.m_rdstate = IOS_eofbit | IOS_failbit;')
+           'if (vb_nondet_int()) self->m_readWriteQueue.m_rdstate = IOS_eofbit | IOS_failbit;',
+           'file->m_readWriteQueue.m_rdstate == 0', 'Q.m_rdstate == 0')
     worker('File_compressedFileReadThread', 'File_compressedFile2UncompressedFile', 'm_compressedFileThreadRunning',
            'g_eos_stream == 1 && g_eos_stream_arg == UncompressedFile_tellp(&U)',
            'C06/File/compressedFileReadThread/end-of-stream-is-declared-to-the-decoding-stage-on-every-exit-(also-after-an-unexpected-exception)',
-           'if (vb_nondet_int()) self->m_compressedFile.cstate = IOS_eofbit | IOS_failbit;')
+           'if (vb_nondet_int()) self->m_compressedFile.cstate = IOS_eofbit | IOS_failbit;',
+           'file->m_compressedFile.cstate == 0', 'C.cstate == 0')
     worker('File_compressedFileWriteThread', 'File_uncompressedFile2CompressedFile', 'm_compressedFileThreadRunning',
            '1', 'C06/File/compressedFileWriteThread/last-stage-needs-no-end-of-stream',
-           'if (vb_nondet_int()) self->m_uncompressedFile.m_rdstate = IOS_eofbit | IOS_failbit;')
+           'if (vb_nondet_int()) self->m_uncompressedFile.m_rdstate = IOS_eofbit | IOS_failbit;',
+           'file->m_uncompressedFile.m_rdstate == 0', 'U.m_rdstate == 0')
     # ------------------------------------------------------------------ close (write branch): statistics
     stubs = '''void File_readWriteQueue2UncompressedFile(struct File *self) { g_rp_q2u++; }
 void File_uncompressedFile2CompressedFile(struct File *self) { g_rp_u2c++; self->m_compressedFile.cp += 32; self->currentUncompressedFileSize += 32; }
